@@ -336,6 +336,7 @@ func (db *RockDB) DelKeys(keys ...[]byte) (int64, error) {
 	if len(keys) == 0 {
 		return 0, nil
 	}
+	keys = uniqueArgs(keys)
 
 	delCnt := int64(0)
 	for _, k := range keys {
